@@ -36,6 +36,8 @@ def run(res, tier, seed, shard, nshards):
     maxk = 4 if tier == "quick" else 5
     if shard == 0:
         crossing_closes(res, W, tier, seed)
+    if shard == 1 % nshards:
+        real_tls_close(res, W)
 
     def scen():
         idx = 0
@@ -435,3 +437,63 @@ def crossing_closes(res, W, tier, seed):
                 judge(out, S, f"random piece={piece}")
             except sched.SimFailure as e:
                 res.violation("hang", f"crossing closes: {type(e).__name__}: {e}", {"gen": "crossing-closes", "decisions": list(S.decisions)[:200]}, how=type(e).__name__)
+
+
+def real_tls_close(res, W):
+    """R6 on a real ssl.SSLSocket: close(timeout=0.3) against a TLS server that never answers (and one that answers)
+    returns promptly and releases the socket.  The limit is generous (5 s) and only an unbounded wait can exceed it."""
+    import shutil
+    import threading
+    import time
+    from .. import realtls
+    try:
+        d, P = realtls.minted("c08")
+    except Exception as e:  # noqa
+        res.notes["real_tls_close"] = f"skipped: certificates could not be minted ({e})"
+        return
+    try:
+        for peer in ("silent", "answers"):
+            for sock_to in (None, 2):
+                def script(srv, conn, resp, peer=peer):
+                    conn.sendall(resp)
+                    if peer == "answers":
+                        conn.settimeout(5)
+                        try:
+                            conn.recv(64)
+                            conn.sendall(R.encode(R.CLOSE, b"\x03\xe8"))
+                        except OSError:
+                            pass
+                    srv.drain(conn, 7.0 if peer == "silent" else 1.0)
+                    conn.close()
+                srv = realtls.ScriptedTLSServer(P["leaf-A-local"], script)
+                srv.start()
+                box = {}
+
+                def client():
+                    try:
+                        w = W.create_connection(f"wss://localhost:{srv.port}/", timeout=4, sslopt={"ca_certs": P["caA"]})
+                        w.settimeout(sock_to)
+                        box["raw"] = w.sock
+                        t0 = time.monotonic()
+                        w.close(timeout=0.3)
+                        box["dt"] = time.monotonic() - t0
+                        box["sock_after"] = w.sock
+                    except BaseException as e:  # noqa
+                        box["exc"] = e
+                th = threading.Thread(target=client, daemon=True)
+                th.start()
+                th.join(6.5)
+                res.case(("real-tls-close", peer, sock_to), nontrivial=True)
+                res.count("real_tls_close_runs")
+                res.count("close_durations_checked")
+                case = {"gen": "real-tls-close", "peer": peer, "socket_timeout": sock_to}
+                if th.is_alive() or box.get("dt", 0) > 5.0:
+                    res.violation("close-timeout-exceeded", f"real TLS connection, peer {peer}, socket timeout {sock_to}: close(timeout=0.3) had not returned after {'6.5' if th.is_alive() else round(box['dt'], 2)} s",
+                                  case, step_call="close", peer="tls-" + peer, socket_timeout=repr(sock_to))
+                elif "exc" in box and "dt" not in box:
+                    res.notes[f"real_tls_close:{peer}:{sock_to}"] = f"connect failed: {box['exc']!r} (skipped)"
+                elif box.get("sock_after") is not None:
+                    res.violation("transport-not-released", f"real TLS connection, peer {peer}: socket still attached after close()", case, step_call="close", via="close", prior="tls")
+                srv.join(0.1)
+    finally:
+        shutil.rmtree(d, ignore_errors=True)
